@@ -8,7 +8,7 @@ from vf import families
 
 PROPERTY = "C07"
 BOUNDS = {"all": "element types {uint8,int16,uint32,uint24,int48,uint64,char,wchar,enum:uint16,enum:int8,flag:uint8,uleb128,ileb128,float,"
-                 "pointer,struct{uint8,int16},uint8[2]} x forms {[0..3],[n][m],[expr over an earlier field],[expr over constants],[],"
+                 "pointer,struct{uint8,int16},uint8[2]} x forms {[0..3],[n][m],[expr over an earlier field],[expr over constants],[wide-range expr m-3600 over a uint16 field],[],"
                  "[EOF]} x {<,>} x {packed,aligned} x {interpreted,compiled}; input: 10..24 symbolic bytes; expression counts in [-1, 3]; "
                  "zero-terminated arrays: every position of the first zero element within the input; write refusal: lists of n-1, n, "
                  "n+1 symbolic elements"}
@@ -40,6 +40,11 @@ def gen(tier):
             yield f"{ename}[field][2]", ["struct", "test", [["n", G.U8, None], ["d", G.arr(G.arr(ET, 2), CNT_FIELD), None], ["t", G.U8, None]], False]
     # a field that has the name of a constant: the field wins
     yield "shadow", ["struct", "test", [["K1", G.U8, None], ["d", G.arr(G.U8, ["expr", ["bin", "&", ["id", "K1"], ["num", 3]]]), None], ["t", G.U8, None]], False]
+    # a count expression ranging over thousands of values (in-band sentinels, sign boundaries): m - 3600 in [-3600, 61935]
+    wide = ["expr", ["bin", "-", ["id", "m"], ["num", 3600]]]
+    for ename, ET in (("u8", G.U8), ("i16", G.I16), ("char", G.CHAR), ("u24", G.U24), ("inner", G.INNER), ("wchar", G.WCHAR)):
+        yield f"{ename}[wide]", ["struct", "test", [["m", G.U16, None], ["d", G.arr(ET, wide), None], ["t", G.U8, None]], False]
+    yield "late-const", ["struct", "test", [["n", G.U8, None], ["d", G.arr(G.U8, ["expr", ["bin", "&", ["id", "n"], ["num", 3]]]), None], ["t", G.U8, None]], False]
     yield "two-arrays", ["struct", "test", [["n", G.U8, None], ["m", G.U8, None], ["a", G.arr(G.U16, ["expr", ["bin", "&", ["id", "n"], ["num", 1]]]), None],
                                              ["b", G.arr(G.CHAR, ["expr", ["bin", "+", ["bin", "&", ["id", "m"], ["num", 1]], ["bin", "&", ["id", "n"], ["num", 1]]]]), None],
                                              ["t", G.U8, None]], False]
@@ -67,6 +72,9 @@ def make(case):
     T, cfg = case["T"], case["cfg"]
     try:
         cs, cls = H.load(T, cfg)
+        if case["label"] == "late-const":
+            # a constant named like an earlier field, defined AFTER the structure: the field still wins
+            cs.load("#define n 2")
         err = None
     except Exception as e:  # noqa: BLE001
         err = H.classify(e) + ": " + str(e)[:80]
@@ -77,6 +85,9 @@ def make(case):
         if err:
             return
         data = ctx.bytes("b", n)
+        if case["label"].endswith("[wide]"):
+            m = R.decode_int(data, 0, 2, False, cfg["endian"] == ">")
+            ctx.assume(m <= 3603, "wide-range count cases: count expression m - 3600 <= 3 (all negative values and 0..3)")
         lib, r, ref = parse_vs_reference(ctx, T, cfg, cls, data)
         ctx.observe("outcome", f"{lib[0]}/{r[0]}" + (":" + lib[1] if lib[0] == "error" else ""))
         if r[0] == "eof":
@@ -149,6 +160,7 @@ def cases(tier, seed):
     for label, T in gen(tier):
         for cfg in cfgs:
             ET = next(f[1] for f in T[2] if f[1][0] == "arr")
+            wide = label.endswith("[wide]")
             while ET[0] == "arr":
                 ET = ET[1]
             es = H.layout(cfg).size_align(ET)[0] or 1
@@ -156,6 +168,8 @@ def cases(tier, seed):
             n = min(24, 1 + (3 if forks > 1 else 5) * es + 3)
             if forks > 1 and label.endswith("[EOF]"):
                 n = 1 + 3 * es + (es > 1)
+            if wide:
+                n = 2 + 3 * es + 1
             if "[2][3]" in label:
                 n = 1 + (4 if forks > 1 else 6) * es + (1 if forks > 1 else 2)
             yield {"label": label, "T": T, "cfg": cfg, "nbytes": n}
